@@ -134,31 +134,32 @@ theorem C07_piece_evaluate_curve [FloorRing K] {o pc : Obj K} {b1 : Basis K} {lv
   hP.evaluate_curve hb hv1 hper1 hs hnc hhv htol hus hus' hin
 
 /-- **Split, periodic direction — the model's `Obj.split` at one value** (curves, surfaces,
-volumes; fibre-wise).  `dir` is a valid periodic direction (continuity `k`, `n` functions, order `p`)
-under the guard `n ≥ p + k` of periodic knot insertion (`C04_periodic_partial`), the control net has
-`n` rows along `dir`, and the split value lies in the base period, `start ≤ x0 < end`.  Then
-`split(x0, dir)` returns a SINGLE OBJECT `op` (not a list) whose basis along `dir` is a valid
-non-periodic basis of the same order on `[x0, x0 + T]` — ONE FULL PERIOD STARTING AT THE SPLIT POINT
-— the other bases and `rational` are untouched, and every control-net fibre of `op` evaluates, at
-every `t` of `[x0, x0+T]` (inward sides at the ends), to the wrapped-image sum `wsum` of the original
-periodic object: at `t` before the seam `end`, at `t - T` from the seam on.
-Proof: the insertion loop is a `PerRefines` sequence (C04), `Basis.roll` / `Tensor.rollAxisNeg`
-produce the shifted periodic sequences `ext (μ+·)`, `(·+μ) % n` (`Lemmas/C07Roll.lean`), and
-`splineVal_open_periodic` cuts one period out of the periodic family.
+volumes; fibre-wise).  `dir` is ANY valid periodic direction (continuity `k`, `n ≥ 1` functions, order
+`p`; no lower bound `n ≥ p + k`: below it `insert_knot` refines through the cover of the basis,
+`C04_periodic`), the control net has `n` rows along `dir`, and the split value lies in the base
+period, `start ≤ x0 < end`.  Then `split(x0, dir)` returns a SINGLE OBJECT `op` (not a list) whose
+basis along `dir` is a valid non-periodic basis of the same order on `[x0, x0 + T]` — ONE FULL PERIOD
+STARTING AT THE SPLIT POINT — the other bases and `rational` are untouched, and every control-net
+fibre of `op` evaluates, at every `t` of `[x0, x0+T]` (inward sides at the ends), to the wrapped-image
+sum `wsum` of the original periodic object: at `t` before the seam `end`, at `t - T` from the seam on.
+Proof: the insertion loop is a `PerRefines` sequence (`C04.insertKnots_fibres_periodic_all`),
+`Basis.roll` / `Tensor.rollAxisNeg` produce the shifted periodic sequences `ext (μ+·)`, `(·+μ) % n`
+(`Lemmas/C07Roll.lean`), and `splineVal_open_periodic` cuts one period out of the periodic family.
 
 The multiplicity `≥ p` of the split value after the insertion loop (needed for the cut) is PROVED
 (`Lemmas/C07Mult.lean`: every periodic insertion raises `bisect_right - bisect_left` of the inserted
-value by one; `continuity` reports `p - mult - 1` when the tolerance comparisons are exact).
+value by one — from the description of the new knot array around the insertion index,
+`Lemmas/C07PerWindow.lean`, valid for the direct algorithm and for the cover branch alike;
+`continuity` reports `p - mult - 1` when the tolerance comparisons are exact).
 
-`_partial`: the guard `n ≥ p + k` (below it the pinned code is wrong), split values of the base period
-only (outside it the pinned code uses the un-wrapped value in `bisect_left`), and `hexR`/`hexL`: no
-knot other than copies of `x0` lies within the tolerance of `x0` (the tolerance comparison of
-`continuity` is exact).  Later split values: the result is an open object, see
-`C07_split_periodic_pieces`. -/
+`_partial`: split values of the base period only (outside it — `x0 = end` included — the pinned code
+uses the un-wrapped value in `bisect_left`: known finding), and `hexR`/`hexL`: no knot other than
+copies of `x0` lies within the tolerance of `x0` (the tolerance comparison of `continuity` is exact).
+Later split values: the result is an open object, see `C07_split_periodic_pieces` and
+`C07_split_open_obj`. -/
 theorem C07_split_periodic_partial [FloorRing K] (o : Obj K) (dir : ℕ) (hdir : dir < o.bases.size)
     (hax : dir < o.cps.shape.length) (hv : (o.basis dir).Valid) (k : ℕ)
     (hk : (o.basis dir).periodic = (k : Int))
-    (hguard : (o.basis dir).order + k ≤ (o.basis dir).numFunctions)
     (hshape : o.cps.shape.getD dir 0 = (o.basis dir).numFunctions) {tol x0 : K} (htol : 0 < tol)
     (hx : (o.basis dir).start ≤ x0 ∧ x0 < (o.basis dir).stop)
     (hexR : ∀ i, i < (o.basis dir).knots.size →
@@ -186,8 +187,8 @@ theorem C07_split_periodic_partial [FloorRing K] (o : Obj K) (dir : ℕ) (hdir :
             = C04.wsum s (o.basis dir).kn ((o.basis dir).order - 1) (o.basis dir).nAll
                 (o.basis dir).numFunctions (C04.fibre o dir a i) 0
                 (t - ((o.basis dir).stop - (o.basis dir).start))) :=
-  split_periodic_single o dir hdir hax hv k hk hguard hshape tol x0 hx
-    (hMult_of_exact o dir hdir hv k hk hguard hshape htol hx hexR hexL)
+  split_periodic_single_all o dir hdir hax hv k hk hshape tol x0 hx
+    (hMult_of_exact_all o dir hdir hv k hk hshape htol hx hexR hexL)
 
 /-- **Later split values of a periodic direction.**  The object `op` opened at the first split
 value is an ordinary open object; the remaining values are split by the non-periodic branch, i.e.
@@ -426,7 +427,7 @@ theorem C07_exPer_split :
   decide +kernel
 
 /-- The exactness hypotheses `hexR`, `hexL` of `C07_split_periodic_partial` for `x0 = 1/2`,
-`tol = 10⁻¹⁰` on `C07_exPer` (and the guard `3 + 0 ≤ 4`). -/
+`tol = 10⁻¹⁰` on `C07_exPer` (which also satisfies `n ≥ p + k`: `3 + 0 ≤ 4`, the direct algorithm). -/
 example : (C07_exPer.basis 0).order + 0 ≤ (C07_exPer.basis 0).numFunctions ∧
     (∀ i, i < (C07_exPer.basis 0).knots.size →
       (C07_exPer.basis 0).kn i ≤ 1/2 ∨ (1/2 : ℚ) + 1 / 10 ^ 10 ≤ (C07_exPer.basis 0).kn i) ∧
@@ -439,6 +440,39 @@ example : (C07_exPer.basis 0).order + 0 ≤ (C07_exPer.basis 0).numFunctions ∧
   · intro i hi
     have hi' : i < 8 := hi
     interval_cases i <;> norm_num [Obj.basis, C07_exPer, Basis.kn]
+
+/-- A SMALL periodic quadratic curve: `p = 3`, `k = 1`, `n = 2 < p + k = 4` functions (the cover
+branch of `insert_knot`), for the guard-free `C07_split_periodic_partial`. -/
+def C07_exPerSmall : Obj ℚ :=
+  { bases := #[⟨3, #[-2, -1, 0, 1, 2, 3, 4], 1⟩],
+    cps := { shape := [2, 2], data := #[1, 2, 3, -1] }, rational := false }
+
+/-- Every hypothesis of `C07_split_periodic_partial` for `C07_exPerSmall`, `x0 = 1/2`, `tol = 10⁻¹⁰`;
+the theorem applies. -/
+example : ∃ op, C07_exPerSmall.split (1 / 10 ^ 10) [1/2] 0 = .ok (.single op) ∧
+    (op.basis 0).Valid ∧ (op.basis 0).start = 1/2 := by
+  obtain ⟨op, m, h1, h2, _, _, _, h6, _⟩ := C07_split_periodic_partial C07_exPerSmall 0 (by decide)
+    (by decide) ((Basis.validB_iff _).1 (by decide +kernel)) 1 (by decide) (by decide)
+    (tol := 1 / 10 ^ 10) (x0 := 1/2) (by norm_num)
+    (by norm_num [Obj.basis, C07_exPerSmall, Basis.start, Basis.stop, Basis.kn])
+    (by
+      intro i hi
+      have hi' : i < 7 := hi
+      interval_cases i <;> norm_num [Obj.basis, C07_exPerSmall, Basis.kn])
+    (by
+      intro i hi
+      have hi' : i < 7 := hi
+      interval_cases i <;> norm_num [Obj.basis, C07_exPerSmall, Basis.kn])
+  exact ⟨op, h1, h2, h6⟩
+
+/-- … and what the model returns, by kernel evaluation: one open quadratic on `[1/2, 5/2]`. -/
+theorem C07_exPerSmall_split :
+    (match C07_exPerSmall.split (1 / 10 ^ 10) [1/2] 0 with
+      | .ok (.single o) => ((o.basis 0).knots.toList, o.cps.shape, o.cps.data.toList)
+      | _ => ([], [], []))
+    = ([1/2, 1/2, 1/2, 1, 2, 5/2, 5/2, 5/2], [5, 2],
+        [5/2, -1/4, 5/2, -1/4, 1, 2, 5/2, -1/4, 5/2, -1/4]) := by
+  decide +kernel
 
 /-- Quadratic curve with an interior knot, for `C07_split_open_obj`. -/
 def C07_exOpenCurve : Obj ℚ :=
